@@ -226,6 +226,65 @@ def esc2(ctx, c):
                               % (f.q, U(x)[:50]), repo.loc(f, x))
 
 
+def esc2_drivers(ctx, c):
+    """the statement list may be empty (Program.parse drops blank and comment-only lines): the drivers do not index it blindly"""
+    repo = ctx.repo
+    for cn, mn in (("Program", "process"), ("Program", "translate_statements"), ("Program", "__init__")):
+        if not repo.has_cls(cn) or mn not in repo.cls(cn).methods:
+            continue
+        f = repo.cls(cn).methods[mn]
+        g = None
+        for x in ast.walk(f.node):
+            if isinstance(x, ast.Subscript) and isinstance(x.ctx, ast.Load) and not isinstance(x.slice, ast.Slice) and U(x.value) in ("self.statements", "statements") \
+                    and try_fold(x.slice) in (0, -1):
+                tr = _enclosing_try(f.node, x)
+                caught = tr is not None and any(h.type is None or any(nm in U(h.type) for nm in ("IndexError", "LookupError", "Exception")) for h in tr.handlers)
+                g = g or CFG(f.node)
+                guarded = _guarded(g, f, U(x.value), x)
+                site = "%s:%s[%s]" % (f.q, U(x.value), try_fold(x.slice))
+                if caught or guarded:
+                    c.ok(site, "guarded (%s)" % (guarded or "handler"), repo.loc(f, x))
+                else:
+                    c.finding(site, "indexes the statement list, which is empty for a source without statements",
+                              "%s reads %s with no emptiness check and outside any handler: a source file that holds only blank lines and comments gives an empty list, and the "
+                              "IndexError leaves the assembler as a traceback" % (f.q, U(x)), repo.loc(f, x))
+    # the listing getters render whatever value kinds the table holds: some kinds render as the empty string (an EQU that names another symbol, an EQU
+    # without operand), and int('') is a ValueError
+    empties = []
+    for cn, cl in repo.classes.items():
+        hx = cl.methods.get("hex")
+        if hx is not None and "Value" in cn:
+            rets = [n.value for n in ast.walk(hx.node) if isinstance(n, ast.Return) and n.value is not None]
+            if rets and all(isinstance(r_, ast.Constant) and r_.value == "" for r_ in rets):
+                empties.append(cn)
+    if repo.has_cls("Program"):
+        for mn in ("get_symbol_table", "get_statements", "get_binary_array"):
+            f = repo.cls("Program").methods.get(mn)
+            if f is None:
+                continue
+            for x in ast.walk(f.node):
+                if isinstance(x, ast.Call) and U(x.func) in ("int", "float") and x.args and any(
+                        isinstance(y, ast.Call) and isinstance(y.func, ast.Attribute) and y.func.attr in ("hex", "ascii") for y in ast.walk(x.args[0])) \
+                        and _enclosing_try(f.node, x) is None and empties:
+                    c.finding("%s:%s" % (f.q, U(x)[:30]), "converts a rendering that is empty for %s" % ", ".join(sorted(empties)[:3]),
+                              "%s computes `%s`: %s render as '' (the table holds such values for `A EQU B` and for an EQU without operand), so the conversion raises ValueError "
+                              "and the listing ends in a traceback after a successful assembly" % (f.q, U(x)[:50], ", ".join(sorted(empties))), repo.loc(f, x))
+    # the handlers that print a diagnostic do not raise themselves: a look-up that fails there replaces the diagnostic by a traceback
+    for rel in ("assembler.py", "file_util.py"):
+        if rel not in repo.modules or "main" not in repo.modules[rel].funcs:
+            continue
+        f = repo.modules[rel].funcs["main"]
+        for tr in [n for n in ast.walk(f.node) if isinstance(n, ast.Try)]:
+            for h in tr.handlers:
+                for x in [y for b_ in h.body for y in ast.walk(b_)]:
+                    if isinstance(x, ast.Call) and isinstance(x.func, ast.Attribute) and x.func.attr in ("index", "rindex", "remove") and x.args:
+                        inner = _enclosing_try(ast.Module(body=h.body, type_ignores=[]), x)
+                        if inner is None:
+                            c.finding("%s:handler(%s):%s" % (f.q, U(h.type) if h.type is not None else "bare", x.func.attr), "%s() in the handler raises ValueError when the item is not found" % x.func.attr,
+                                      "the %s handler of %s calls `%s`: when the item is not there (a line of an INCLUDEd file is not in the main buffer) the ValueError replaces the "
+                                      "diagnostic by a traceback" % (U(h.type) if h.type is not None else "bare", f.q, U(x)[:60]), repo.loc(f, x))
+
+
 def _guarded(g, f, name, sub):
     """a test mentioning `name` (emptiness / length / membership-producing find) dominates the access with its failing edge leading only to raise/return"""
     target = None
@@ -524,4 +583,4 @@ def term1(ctx, c):
             c.undecided("recursion:%s" % q, "untriaged call cycle reachable from Program.process", "", w)
 
 
-RULES = {"ESC-1": esc1, "ESC-2": esc2, "TERM-1": term1}
+RULES = {"ESC-1": esc1, "ESC-2": (lambda ctx, c: (esc2(ctx, c), esc2_drivers(ctx, c))), "TERM-1": term1}
